@@ -38,8 +38,8 @@ Proof.
   - cbn. lia.
   - rewrite forallb_app in H. apply andb_true_iff in H. destruct H as [Hs Hc].
     cbn [forallb] in Hc. rewrite andb_true_r in Hc. specialize (IH Hs).
-    rewrite digits_value_snoc. rewrite zlen_app, zlen_cons, zlen_nil.
-    replace (zlen s + (1 + 0)) with (Z.succ (zlen s)) by lia. rewrite Z.pow_succ_r by apply zlen_nonneg.
+    rewrite digits_value_snoc. rewrite zlen_app. change (zlen [c]) with 1.
+    replace (zlen s + 1) with (Z.succ (zlen s)) by lia. rewrite Z.pow_succ_r by apply zlen_nonneg.
     pose proof (dval_range c Hc). lia.
 Qed.
 
@@ -81,7 +81,7 @@ Lemma digits_fuel_spec fuel : forall z acc, 0 <= z < 2 ^ Z.of_nat fuel -> fuel <
 Proof.
   induction fuel as [|f IH]; intros z acc Hz Hf; [congruence|].
   cbn [digits_fuel]. rewrite div_eucl_10.
-  assert (0 <= z mod 10 <= 9) as Hr by (apply Z.mod_pos_bound; lia) .
+  assert (0 <= z mod 10 <= 9) as Hr by (pose proof (Z.mod_pos_bound z 10); lia).
   destruct (digit_char_ok _ Hr) as (Hd & Hv). fold (digit_char (z mod 10)).
   destruct (z / 10 =? 0) eqn:Eq.
   - exists [digit_char (z mod 10)]. split; [reflexivity|].
@@ -242,7 +242,7 @@ Definition stops (l : list cls) : Prop := match l with [] => True | CSpace :: _ 
 
 Lemma stops_blanks ws : forallb blank ws = true -> stops (map classify ws).
 Proof.
-  destruct ws as [|c ws]; [exact I|]. cbn [forallb map]. intros H. apply andb_true_iff in H.
+  destruct ws as [|c ws]; [intros _; exact I|]. cbn [forallb map]. intros H. apply andb_true_iff in H.
   destruct H as [Hc _]. now rewrite classify_blank.
 Qed.
 
